@@ -691,7 +691,7 @@ def _generic_set(draw, set_type=None, lr_type=None, origin=None, invariant=False
     if set_type is None:
         if draw(ints(0, 3)) == 0:
             set_type = b'X-' + _text(draw, UPPER, 1, 12)    # private type
-            lr = draw(ints(12, 127))
+            lr = draw(ints(12, 127)) if draw(BOOL) else draw(ints(128, 255))    # undefined public codes / private codes
         else:
             set_type = _pick(draw, FURTHER_TYPES)
             lr = PUBLIC_TYPES[set_type]
@@ -770,7 +770,8 @@ FRAME_EXTRAS = {b'INDEX-TYPE': 19, b'DIRECTION': 19, b'SPACING': 2, b'ENCRYPTED'
 
 
 def _log_pass_records(draw, origin=1, max_frame_types=4, max_channels=6, max_frames=40, codes=FRAME_CODES,
-                      allow_empty_iflr=True, allow_encrypted=True, max_elements=12, frame_weights=(1, 2, 2, 3, 4)):
+                      allow_empty_iflr=True, allow_encrypted=True, max_elements=12, frame_weights=(1, 2, 2, 3, 4),
+                      array_first_channel=False):
     """CHANNEL set, FRAME set and frame data records of one logical file (to be placed after FILE-HEADER and ORIGIN).
     Returns (the two sets, frame data records)."""
     n_types = min(max_frame_types, _pick(draw, frame_weights))
@@ -783,7 +784,7 @@ def _log_pass_records(draw, origin=1, max_frame_types=4, max_channels=6, max_fra
                 ident = ident + str(len(used)).encode()
             used.add(ident)
             chans.append({'name': [origin if draw(ints(0, 3)) else _uvari(draw), _pick(draw, [0, 0, 1, 7]), ident],
-                          'code': _pick(draw, codes), 'dims': _dimensions(draw, c == 0, max_elements),
+                          'code': _pick(draw, codes), 'dims': _dimensions(draw, c == 0 and not (array_first_channel and draw(ints(0, 4)) == 0), max_elements),
                           'units': _pick(draw, UNIT_WORDS) if draw(BOOL) else None,
                           'long_name': _text(draw, PRINTABLE, 0, 20) if draw(BOOL) else None})
         frames.append(chans)
@@ -1055,14 +1056,14 @@ def logical_files(draw, min_files=1, max_files=4, max_sets=6, crash_shapes=None,
 
 @st.composite
 def log_pass_files(draw, max_frame_types=4, max_channels=6, max_frames=40, max_sets=2, codes=FRAME_CODES, allow_empty_iflr=True,
-                   allow_encrypted=True, max_elements=12, frame_weights=(1, 2, 2, 3, 4)):
+                   allow_encrypted=True, max_elements=12, frame_weights=(1, 2, 2, 3, 4), array_first_channel=False):
     """A storage unit holding one logical file with a log pass (the C04 grammar); no structural feature of the C03
     candidate defects is used, so the file indexes on the unchanged tree."""
     records = _logical_file_records(draw, max_sets=max_sets, crash_shapes=False, absent=False, log_pass=True,
                                     allow_encrypted=allow_encrypted,
                                     log_pass_args=dict(max_frame_types=max_frame_types, max_channels=max_channels, max_frames=max_frames,
                                                        codes=codes, allow_empty_iflr=allow_empty_iflr, max_elements=max_elements,
-                                                       frame_weights=frame_weights))
+                                                       frame_weights=frame_weights, array_first_channel=array_first_channel))
     return _finish_case(draw, records)
 
 
